@@ -24,7 +24,7 @@ pub struct Output<'a> {
     target: *mut (dyn fmt::Write + 'a),
     capture_stack: Vec<Option<String>>,
     #[cfg(feature = "verif_hooks")]
-    verif_id: u64,
+    verif_tap: VerifTap<'a>,
 }
 
 impl<'a> Output<'a> {
@@ -35,7 +35,7 @@ impl<'a> Output<'a> {
             target: w,
             capture_stack: Vec::new(),
             #[cfg(feature = "verif_hooks")]
-            verif_id: crate::verif_hooks::output::on_new(false),
+            verif_tap: VerifTap::new(w, false),
         }
     }
 
@@ -49,7 +49,7 @@ impl<'a> Output<'a> {
             target: NullWriter::get_mut(),
             capture_stack: vec![None],
             #[cfg(feature = "verif_hooks")]
-            verif_id: crate::verif_hooks::output::on_new(true),
+            verif_tap: VerifTap::new(NullWriter::get_mut(), true),
         }
     }
 
@@ -63,7 +63,7 @@ impl<'a> Output<'a> {
         self.retarget();
         #[cfg(feature = "verif_hooks")]
         crate::verif_hooks::output::on_begin_capture(
-            self.verif_id,
+            self.verif_tap.out,
             matches!(self.capture_stack.last(), Some(None)),
         );
     }
@@ -81,7 +81,7 @@ impl<'a> Output<'a> {
         };
         self.retarget();
         #[cfg(feature = "verif_hooks")]
-        crate::verif_hooks::output::on_end_capture(self.verif_id, &rv);
+        crate::verif_hooks::output::on_end_capture(self.verif_tap.out, &rv);
         rv
     }
 
@@ -97,7 +97,18 @@ impl<'a> Output<'a> {
     fn target(&mut self) -> &mut dyn fmt::Write {
         // SAFETY: this is safe because we carefully maintain the capture stack
         // to update self.target whenever it's modified
-        unsafe { &mut *self.target }
+        #[cfg(not(feature = "verif_hooks"))]
+        {
+            unsafe { &mut *self.target }
+        }
+        // verification hook: the same target behind a tap that logs what
+        // passes; all writes below exist once, for both builds
+        #[cfg(feature = "verif_hooks")]
+        {
+            self.verif_tap.target = self.target;
+            self.verif_tap.route = self.verif_target();
+            &mut self.verif_tap
+        }
     }
 
     /// Where a write is routed right now (verification hook).
@@ -114,7 +125,7 @@ impl<'a> Output<'a> {
     /// The identity of this output in the verification log (verification hook).
     #[cfg(feature = "verif_hooks")]
     pub(crate) fn verif_id(&self) -> u64 {
-        self.verif_id
+        self.verif_tap.out
     }
 
     /// The depth of the capture stack (verification hook).
@@ -134,98 +145,70 @@ impl<'a> Output<'a> {
     /// Writes some data to the underlying buffer contained within this output.
     #[inline]
     pub fn write_str(&mut self, s: &str) -> fmt::Result {
-        #[cfg(not(feature = "verif_hooks"))]
-        {
-            self.target().write_str(s)
-        }
-        #[cfg(feature = "verif_hooks")]
-        {
-            let rv = self.target().write_str(s);
-            crate::verif_hooks::output::on_write_str(
-                self.verif_id,
-                || self.verif_target(),
-                s,
-                rv.is_ok(),
-            );
-            rv
-        }
+        self.target().write_str(s)
     }
 
     /// Writes some formatted information into this instance.
     #[inline]
     pub fn write_fmt(&mut self, a: fmt::Arguments<'_>) -> fmt::Result {
-        #[cfg(not(feature = "verif_hooks"))]
-        {
-            self.target().write_fmt(a)
-        }
-        #[cfg(feature = "verif_hooks")]
-        {
-            // same calls on the target, but every piece passes the log
-            fmt::write(&mut VerifTap(self), a)
+        self.target().write_fmt(a)
+    }
+}
+
+/// The current target of an output behind a logging tap (verification hook):
+/// forwards `write_str`/`write_char` (and with them every piece of a
+/// `write_fmt`) to the target and logs the call with its routing and result.
+#[cfg(feature = "verif_hooks")]
+struct VerifTap<'a> {
+    target: *mut (dyn fmt::Write + 'a),
+    out: u64,
+    route: crate::verif_hooks::output::Target,
+}
+
+#[cfg(feature = "verif_hooks")]
+impl<'a> VerifTap<'a> {
+    fn new(target: *mut (dyn fmt::Write + 'a), null: bool) -> Self {
+        VerifTap {
+            target,
+            out: crate::verif_hooks::output::on_new(null),
+            route: crate::verif_hooks::output::Target::Base,
         }
     }
 }
 
-/// Forwards the pieces of a `write_fmt` to the target of an output, one by
-/// one, through the logging `write_str`/`write_char` (verification hook).
 #[cfg(feature = "verif_hooks")]
-struct VerifTap<'x, 'a>(&'x mut Output<'a>);
-
-#[cfg(feature = "verif_hooks")]
-impl fmt::Write for VerifTap<'_, '_> {
+impl fmt::Write for VerifTap<'_> {
     #[inline]
     fn write_str(&mut self, s: &str) -> fmt::Result {
-        Output::write_str(self.0, s)
+        // SAFETY: `target` was copied from the output's `target` right before
+        let rv = unsafe { &mut *self.target }.write_str(s);
+        crate::verif_hooks::output::on_write_str(self.out, || self.route.clone(), s, rv.is_ok());
+        rv
     }
 
     #[inline]
     fn write_char(&mut self, c: char) -> fmt::Result {
-        fmt::Write::write_char(self.0, c)
+        // SAFETY: see `write_str`
+        let rv = unsafe { &mut *self.target }.write_char(c);
+        crate::verif_hooks::output::on_write_char(self.out, || self.route.clone(), c, rv.is_ok());
+        rv
     }
 }
 
 impl fmt::Write for Output<'_> {
     #[inline]
     fn write_str(&mut self, s: &str) -> fmt::Result {
-        #[cfg(not(feature = "verif_hooks"))]
-        {
-            fmt::Write::write_str(self.target(), s)
-        }
-        #[cfg(feature = "verif_hooks")]
-        {
-            Output::write_str(self, s)
-        }
+        fmt::Write::write_str(self.target(), s)
     }
 
     #[inline]
     fn write_char(&mut self, c: char) -> fmt::Result {
-        #[cfg(not(feature = "verif_hooks"))]
-        {
-            fmt::Write::write_char(self.target(), c)
-        }
-        #[cfg(feature = "verif_hooks")]
-        {
-            let rv = fmt::Write::write_char(self.target(), c);
-            crate::verif_hooks::output::on_write_char(
-                self.verif_id,
-                || self.verif_target(),
-                c,
-                rv.is_ok(),
-            );
-            rv
-        }
+        fmt::Write::write_char(self.target(), c)
     }
 
     #[inline]
     fn write_fmt(&mut self, args: fmt::Arguments<'_>) -> fmt::Result {
-        #[cfg(not(feature = "verif_hooks"))]
-        {
-            fmt::Write::write_fmt(self.target(), args)
-        }
-        #[cfg(feature = "verif_hooks")]
-        {
-            Output::write_fmt(self, args)
-        }
+        fmt::Write::write_fmt(self.target(), args)
     }
 }
 
